@@ -9,6 +9,8 @@ deposit / withdrawal formulas (fee factors, same-side / crossover price impact, 
 deposit -> withdraw-all is compared in USD value at the bar's prices; more GM than held must not be redeemable.
 Markets are driven frozen at one bar, stepped over bars, and inside the real Actuator.run."""
 import math
+
+import pandas as pd
 from decimal import Decimal
 from fractions import Fraction
 
@@ -757,10 +759,14 @@ def case_v1_actuator(mon, rng, c):
 
 
 # ================================================================================================ v2
+def _opt(x):
+    return None if x is None else float(x)
+
+
 def v2_state(row):
     return G.V2State(
-        float(row["longAmount"]), float(row["shortAmount"]), float(row["virtualSwapInventoryLong"]),
-        float(row["virtualSwapInventoryShort"]), float(row["poolValue"]), float(row["marketTokensSupply"]),
+        float(row["longAmount"]), float(row["shortAmount"]), _opt(row["virtualSwapInventoryLong"]),
+        _opt(row["virtualSwapInventoryShort"]), float(row["poolValue"]), float(row["marketTokensSupply"]),
         float(row["impactPoolAmount"]), float(row["longPrice"]), float(row["shortPrice"]),
     )
 
@@ -1108,6 +1114,14 @@ def _v2_world(rng, n, custom_cfg):
         a, b = w.data["virtualSwapInventoryLong"].copy(), w.data["virtualSwapInventoryShort"].copy()
         w.data["virtualSwapInventoryLong"] = b / w.data["longPrice"]
         w.data["virtualSwapInventoryShort"] = a * w.data["longPrice"]
+    vk = rng.random()
+    if vk < 0.15:
+        # markets without a virtual inventory (none configured), or with only one side of it: the real pool alone decides
+        which = rng.choice(["both", "both", "long", "short"])
+        if which in ("both", "long"):
+            w.data["virtualSwapInventoryLong"] = pd.Series([None] * len(w.data.index), index=w.data.index, dtype=object)
+        if which in ("both", "short"):
+            w.data["virtualSwapInventoryShort"] = pd.Series([None] * len(w.data.index), index=w.data.index, dtype=object)
     m = w.market()
     cfgcls = "default"
     if custom_cfg:
